@@ -120,6 +120,7 @@ def run(tier, seed, out, drv, facts):
                         out.violation(f"reject-binds:{name}", f"a rejected tree changed the bindings from {progcheck.last_bindings(gb)} to {progcheck.last_bindings(got)}", {"program": prog})
     arraylike_node_cases(out)
     composite_leaf_cases(out, drv, facts, rng)
+    overwrite_then_reject_cases(out, drv, facts, rng)
     bare_pytree_cases(out)
     after_fault_cases(out)
 
@@ -139,6 +140,40 @@ def composite_leaf_cases(out, drv, facts, rng):
             prog = [{"op": "ctx", "body": [{"op": "check", "l": lt, "x": tree}, P], "exit": "ret"}]
             got, want = progcheck.compare_program(out, drv, facts, prog, "composite-leaf", rng=rng, as_violation=as_violation)
             out.case(("composite-leaf", json.dumps(tree, sort_keys=True), json.dumps(lt)[:40]), True, sample={"tree": tree, "verdict": progcheck.verdicts(got)[-1:]})
+
+
+def overwrite_then_reject_cases(out, drv, facts, rng):
+    """a multi-axis name already bound as broadcastable is UPDATED in place by a leaf that broadcasts against it (the stored
+    shape becomes the broadcast shape, the flag that of the latest annotation) — no new entry appears. A tree rejected at a
+    later leaf must put the old value back, not only remove what was added"""
+    a, v = gen_prog.arr_type, gen_prog.arr_val
+    priors = [[{"op": "check", "l": a("*#v"), "x": v([1, 3])}], [{"op": "check", "l": a("*#v"), "x": v([1, 3])}, {"op": "check", "l": a("q"), "x": v([2])}]]
+    cases = [
+        (a("*#v"), [v([2, 1]), v([5])]),
+        (a("*#v"), [v([2, 3]), v([4, 3]), v([1, 3])]),
+        (a("*v"), [v([2, 3]), v([7])]),
+        (a("*v"), [v([2, 3]), v([2, 3]), v([1, 3])]),
+        (a("*#v q"), [v([4, 3, 2]), v([4, 3, 5])]),
+        (a("*#v"), [v([1, 3]), v([2, 3])]),          # accepted: the update stays
+    ]
+    for prior in priors:
+        for lt, leaves in cases:
+            for shape in ("list", "dict"):
+                tree = {"t": "list", "xs": leaves} if shape == "list" else {"t": "dict", "keys": ["k%d" % i for i in range(len(leaves))], "vals": leaves}
+                pt = {"t": "pytree", "l": lt, "s": None}
+                follow = {"op": "check", "l": a("*#v"), "x": v([4, 3])}      # broadcasts against (1, 3) only
+                prog = [{"op": "ctx", "body": prior + [{"op": "check", "l": pt, "x": tree}, P, follow, P], "exit": "ret"}]
+                got, want = progcheck.compare_program(out, drv, facts, prog, "overwrite-then-reject", rng=rng, as_violation=as_violation)
+                out.case(("overwrite-then-reject", json.dumps(tree, sort_keys=True), json.dumps(lt)[:60], len(prior)), True,
+                         sample={"tree": tree, "leaf_type": lt, "verdicts": progcheck.verdicts(got)})
+                vs = progcheck.verdicts(got)
+                if len(vs) >= len(prior) + 1 and vs[len(prior)] == "F":
+                    before = [{"op": "ctx", "body": prior + [P], "exit": "ret"}]
+                    gb, _ = impl_prog.run_program(before, "typeguard", rng)
+                    mid = [o for o in got if o["o"] == "bindings"]
+                    if mid and progcheck.last_bindings(gb) != mid[0]["m"]:
+                        out.violation("reject-binds:overwrite", f"a rejected tree changed the bindings from {progcheck.last_bindings(gb)} to {mid[0]['m']} "
+                                      f"(a broadcastable multi-axis binding updated by an early leaf was not put back)", {"program": prog})
 
 
 def bare_pytree_cases(out):
